@@ -207,7 +207,7 @@ func (e *MetaCDC) ReloadTask() {
 			continue
 		}
 		if err := e.startInternal(taskInfo, taskInfo.State == meta.TaskStateRunning); err != nil {
-			log.Warn("fail to start the task", zap.Any("task_info", taskInfo), zap.Error(err))
+			log.Warn("fail to start the task", zap.String("task_id", taskInfo.TaskID), zap.Error(err))
 			_ = e.pauseTaskWithReason(taskInfo.TaskID, "fail to start task, err: "+err.Error(), []meta.TaskState{})
 		}
 		// replicateEntity := e.replicateEntityMap.data[uKey]
